@@ -159,7 +159,7 @@ PLANS = {
         'rule': ('a bundle = one session spec (9-14 objects of all six kinds built from seeded specs over a 1-2 letter alphabet, then 36-60 calls drawn uniformly from a registry of ~90 pure operations: '
                  'acceptance tests, enumerators, minimisers, products, complement/reverse/prefix-free, conversions (nfa_to_dfa, dfa_to_regexp, regexp_to_nfa, cfg_to_chomsky and its phases, pda_to_cfg, PDA normal forms), '
                  'printers, generate_language, accept/reject checkers and ~14 text-level check_* functions with correct, perturbed and ill-formed answers; results join the pool and become operands) executed by 5 replicas: '
-                 '4 fresh interpreters with different PYTHONHASHSEED plus one with GambaTools.enable_logging=True; inside each replica the session runs in a pristine fork and one call in eight is re-executed alone '
+                 '4 fresh interpreters with different PYTHONHASHSEED plus one with GambaTools.enable_logging=True; inside each replica the session runs in a pristine fork and one call in three is re-executed alone '
                  '(arguments rebuilt from their pre-call snapshots) in another pristine fork. One evaluation = one operation call. Oracles: every pool object is re-snapshotted after every step (argument integrity); '
                  'per-step outcome digests (exact language for DFA/NFA/regexp results, bounded language for CFG/PDA results, value for bools/sets, OK/not-OK for checkers, exception type) must agree across replicas, '
                  'between session and solo execution, and between logging on/off. distinct non-trivial = distinct (session, step) whose operand was produced by an earlier step or used before.'),
